@@ -157,6 +157,7 @@ public:
      * @retval false the future has no value, it could be not-initialize or pending
      */
     bool ready() const {
+        COCLS_VERIF_POINT("ready");
         return _awaiter.load(std::memory_order_acquire) == &awaiter::disabled;
     }
 
@@ -598,6 +599,7 @@ public:
     promise(promise &&other):_owner(other.claim()) {}
     ///destructor
     ~promise() {
+        COCLS_VERIF_POINT("dtor");
         auto m = _owner.load(std::memory_order_relaxed);
         if (m) m->resolve();
 
@@ -694,6 +696,7 @@ public:
 
     ///claim this future as pointer to promise - used often internally
     future<T> *claim() const {
+        COCLS_VERIF_POINT("claim");
         return _owner.exchange(nullptr, std::memory_order_relaxed);
     }
 
